@@ -392,12 +392,8 @@ impl<'a> R<'a> {
             .unwrap()
             .iter()
             .map(|line| {
-                line.as_array()
-                    .unwrap()
-                    .iter()
-                    .map(|c| self.clause(c, lvl + 2))
-                    .collect::<Vec<_>>()
-                    .join(&format!(" {} ", self.or()))
+                let alts: Vec<String> = line.as_array().unwrap().iter().map(|c| self.clause(c, lvl + 2)).collect();
+                self.join_alts(&alts, lvl + 2)
             })
             .collect();
         lines.join(&format!("\n{}", self.ind(lvl + 2)))
@@ -409,16 +405,42 @@ impl<'a> R<'a> {
             .unwrap()
             .iter()
             .map(|line| {
-                line.as_array()
-                    .unwrap()
-                    .iter()
-                    .map(|c| self.clause(c, lvl))
-                    .collect::<Vec<_>>()
-                    .join(&format!(" {} ", self.or()))
+                let alts: Vec<String> = line.as_array().unwrap().iter().map(|c| self.clause(c, lvl)).collect();
+                self.join_alts(&alts, lvl)
             })
             .collect();
         let sep = if self.st.break_lists { format!("\n{}", self.ind(lvl)) } else { "\n".to_string() };
         lines.join(&sep)
+    }
+
+    /// alternatives of one line joined by `or`; with line breaks enabled the `or` ends the line,
+    /// starts the next one, or follows a comment that ends the line of the previous alternative
+    fn join_alts(&self, alts: &[String], lvl: usize) -> String {
+        let mut o = String::new();
+        for (i, a) in alts.iter().enumerate() {
+            if i > 0 {
+                if self.st.break_lists {
+                    let n = self.ctr.get();
+                    self.ctr.set(n + 1);
+                    let layout = match self.coin(3) { Some(c) => c as usize, None => n % 3 };
+                    match layout {
+                        0 => o.push_str(&format!(" {}\n{}", self.or(), self.ind(lvl + 1))),
+                        1 => o.push_str(&format!("\n{}{} ", self.ind(lvl + 1), self.or())),
+                        _ => {
+                            if self.st.comments {
+                                o.push_str(&format!(" # alt {} or not\n{}{} ", n, self.ind(lvl + 1), self.or()));
+                            } else {
+                                o.push_str(&format!("  \n\n{}{}\n{}", self.ind(lvl + 1), self.or(), self.ind(lvl + 2)));
+                            }
+                        }
+                    }
+                } else {
+                    o.push_str(&format!(" {} ", self.or()));
+                }
+            }
+            o.push_str(a);
+        }
+        o
     }
 
     fn cnf_lines(&self, cnf: &J, lvl: usize) -> String {
@@ -427,11 +449,7 @@ impl<'a> R<'a> {
             let alts: Vec<String> =
                 line.as_array().unwrap().iter().map(|c| self.clause(c, lvl)).collect();
             o.push_str(&self.ind(lvl));
-            if self.st.break_lists && alts.len() > 1 {
-                o.push_str(&alts.join(&format!(" {}\n{}", self.or(), self.ind(lvl + 1))));
-            } else {
-                o.push_str(&alts.join(&format!(" {} ", self.or())));
-            }
+            o.push_str(&self.join_alts(&alts, lvl));
             o.push_str(&self.eol());
         }
         o
